@@ -142,17 +142,17 @@ func writeEvidence(w *World, pc *PropConfig, id, tier string, seed int, results 
 	}
 	sort.Strings(funcs)
 	cov := map[string]interface{}{
-		"obligations":             nOb,
-		"discharged":              nDis,
-		"checker_cmd":             fmt.Sprintf("/verif/bin/govc check %s --tier %s", id, tier),
-		"trusted_base":            tb,
-		"functions_under_contract": funcs,
-		"backends":                backends,
-		"solver_time_s":           round3(solverTime),
+		"obligations":                  nOb,
+		"discharged":                   nDis,
+		"checker_cmd":                  fmt.Sprintf("/verif/bin/govc check %s --tier %s", id, tier),
+		"trusted_base":                 tb,
+		"functions_under_contract":     funcs,
+		"backends":                     backends,
+		"solver_time_s":                round3(solverTime),
 		"unclaimed_safety_obligations": unclaimed,
-		"samples":                 samples,
-		"obligation_list":         recs,
-		"unmodelled_calls_havoced": sortedKeys(havoc),
+		"samples":                      samples,
+		"obligation_list":              recs,
+		"unmodelled_calls_havoced":     sortedKeys(havoc),
 	}
 	if len(knownRecs) > 0 {
 		cov["known_findings_not_counted"] = knownRecs
